@@ -75,8 +75,8 @@ def money_class(out):
 def server_variants(tier_thorough, n):
     """Server behaviours: (name, plan-without-body)."""
     cuts_quick = [0, 1, 1448, n - 1]
-    cuts_thorough = sorted(set([0, 1, 2, 511, 512, 1447, 1448, 1449, 2896, 4096, n // 2, n - 2, n - 1] +
-                               list(range(700, n, 700))))
+    cuts_thorough = sorted(set([0, 1, 2, 511, 512, 999, 1000, 1001, 1447, 1448, 1449, 2896, 2999, 3000, 3001, 4096, n // 2, n - 2, n - 1] +
+                               list(range(256, n, 256))))
     cuts = cuts_thorough if tier_thorough else cuts_quick
     v = [("200-complete", {"kind": "full", "status": 200, "pieces": []}),
          ("200-complete-3pieces", {"kind": "full", "status": 200, "pieces": [1000, 3000]})]
@@ -740,7 +740,7 @@ def judge_all(c, runner, scns, observations, seen, stats):
             k = "%s:%s" % (suffix, key)
             gk = suffix + "|" + scn["server"]["name"].split("@")[0] + "|" + scn["entry"].split("-")[0]
             stats["oracle_violations"] += 1
-            if gk in seen:
+            if gk in seen or sum(1 for x in seen if x.startswith(suffix + "|")) >= 3:
                 continue
             seen.add(gk)
             c.violation(k, "implementation violates C20 in scenario [%s]: %s" % (key, text),
@@ -754,7 +754,7 @@ def judge_all(c, runner, scns, observations, seen, stats):
         if dis and not verdicts:
             stats["disagreements"] += 1
             gk = "dis|" + dis[0].split(":")[0] + "|" + scn["server"]["name"].split("@")[0] + "|" + scn["entry"].split("-")[0] + "|" + scn["prior"]
-            if gk in seen:
+            if gk in seen or sum(1 for x in seen if x.startswith("dis|" + dis[0].split(":")[0] + "|")) >= 3:
                 continue
             seen.add(gk)
             c.violation("disagree:" + key, "model/implementation disagreement in scenario [%s]: %s" % (key, "; ".join(dis)[:600]),
@@ -856,6 +856,8 @@ def run(c):
                             {"kind": "history", "scenario": public_scn(s), "followup": res}, found=True)
     finally:
         runner.close()
+    # failing inputs (implementation against the property oracle) first, model disagreements after
+    c.violations.sort(key=lambda v: 0 if v["found"] else 1)
     for d in os.listdir(c.work):          # scratch directories of unremarkable runs are not kept
         if re.match(r"^s\d+$", d) and not c.violations:
             shutil.rmtree(os.path.join(c.work, d), ignore_errors=True)
@@ -867,7 +869,7 @@ def run(c):
                 "refused, chunked body without terminator, RST} x entry point {expression arguments, -f -, --fetch-currency} [x kill point: SIGKILL at the entry of the k-th write(2), "
                 "mkdir, fsync, rename, unlink (strace inject) or in the middle of a stalled transfer], each followed by a next start with the server unreachable; "
                 "distinct = distinct (prior, server, entry, config, kill point); non-trivial = the run contacted the server, touched the cache directory beyond opening the cache file, or was killed"
-                % ("thorough list incl. every 700 bytes" if c.thorough else "{0,1,1448,n-1}", "/302/403/429/503" if c.thorough else ""),
+                % ("every 256 bytes plus the piece boundaries +-1, 0, 1, 2, n-2, n-1" if c.thorough else "{0,1,1448,n-1}", "/302/403/429/503" if c.thorough else ""),
         "samples": stats["samples"],
         "traces_validated_against_impl": stats["traces"],
         "matrix_scenarios": nmatrix, "kill_scenarios": len(kills), "kills_landed": landed,
